@@ -3,6 +3,7 @@ package align
 import (
 	"fmt"
 	"sync"
+	"sync/atomic"
 )
 
 // * If SetTranslate(true):
@@ -194,6 +195,10 @@ func (p *phaser) Phase(orfs, seqs SeqBag) (phased chan PhasedSequence, err error
 	// Fill the sequence channel
 	seqchan = seqs.SequencesChan()
 
+	// Set once a worker has met an error: the other workers then stop
+	// (the error itself travels with the result, in PhasedSequence.Err)
+	var failed int32
+
 	// All threads consuming sequences
 	var wg sync.WaitGroup
 	for cpu := 0; cpu < p.cpus; cpu++ {
@@ -211,16 +216,16 @@ func (p *phaser) Phase(orfs, seqs SeqBag) (phased chan PhasedSequence, err error
 				}
 
 				if ph.Err != nil {
-					err = inerr
+					atomic.StoreInt32(&failed, 1)
 					phased <- ph
 					return
 				} else if inerr != nil {
-					err = inerr
+					atomic.StoreInt32(&failed, 1)
 					ph.Err = inerr
 					phased <- ph
 					return
 				}
-				if err != nil {
+				if atomic.LoadInt32(&failed) != 0 {
 					return
 				}
 				phased <- ph
